@@ -97,12 +97,20 @@ SelfAssign == {[fam |-> "selfassign", a |-> l, b |-> r, op |-> "",
                      must |-> IF <<p, q, w>> = <<"x", "y", "z">> THEN {20} ELSE {},
                      mustnot |-> IF <<p, q, w>> # <<"x", "y", "z">> THEN {20} ELSE {}] : p \in V3, q \in V3, w \in V3}
 
-Instances == DupKey \cup Arity \cup DupParam \cup BinExp \cup AndFalse \cup FloatEq \cup DupIf \cup SelfAssign
+\* chains: x or true or true is (x or true) or true -- the pattern occurs once per link, all starting at the same
+\* column and ending at different ones; likewise x and false and false
+Chain == {[fam |-> "chain", a |-> "x", b |-> ToString(n), op |-> o,
+           must |-> IF o = "or" THEN {15} ELSE {16}, times |-> n,
+           mustnot |-> (IF o = "or" THEN {16} ELSE {15}) \cup {21}] : o \in {"or", "and"}, n \in 2..3}
+
+Instances == DupKey \cup Arity \cup DupParam \cup BinExp \cup AndFalse \cup FloatEq \cup DupIf \cup SelfAssign \cup Chain
 
 \* where the instance's expression / constructor / parameter list is planted inside its statement
-ECtx(f) == CASE f \in {"binexp", "andfalse", "floateq"} -> {"arg", "cond", "while", "tbl", "ret", "index"}
-             [] f = "dupkey" -> {"local", "arg", "ret"}
-             [] f = "params" -> {"lfunc", "anon", "arg", "gfunc"}
+\* ("surplus": the value beyond the names of a local declaration -- local s = 1, <here> -- which is itself an instance of
+\* check 8, and still a place where the other patterns occur)
+ECtx(f) == CASE f \in {"binexp", "andfalse", "floateq", "chain"} -> {"arg", "cond", "while", "tbl", "ret", "index", "surplus"}
+             [] f = "dupkey" -> {"local", "arg", "ret", "surplus"}
+             [] f = "params" -> {"lfunc", "anon", "arg", "gfunc", "surplus"}
              [] OTHER -> {"stmt"}
 
 VARIABLES inst, ctx, ectx
